@@ -32,6 +32,27 @@ class HarnessError(Exception):
 _THIS_FILE = os.path.abspath(__file__)
 
 
+def warm_up_opcode_tracing():
+    """CPython 3.12 enables per-instruction trace events for the interpreter only at the
+    first ``sys.settrace`` call *after* some frame has set ``f_trace_opcodes``; the flag
+    is sticky for the process.  Without this warm-up the first opcode-granularity run of
+    a process would silently run at line granularity - a history dependence of the
+    harness itself.  Called once per process before any simulated run."""
+    def probe():
+        return None
+
+    def tracer(frame, event, arg):
+        frame.f_trace_opcodes = True
+        return tracer
+
+    old = sys.gettrace()
+    sys.settrace(tracer)
+    try:
+        probe()
+    finally:
+        sys.settrace(old)
+
+
 class Sim:
     """One simulated execution of a plan.
 
@@ -44,7 +65,7 @@ class Sim:
     """
 
     def __init__(self, plan, traced, run_op, fire=None, engine=None, deep_log=False,
-                 op_frame_files=(), budget_factor=50):
+                 op_frame_files=(), budget_factor=50, watch_code=None):
         self.plan = plan
         self.traced = traced
         self.run_op_fn = run_op
@@ -53,6 +74,7 @@ class Sim:
         self.deep = deep_log
         self.op_frame_files = set(op_frame_files) | {_THIS_FILE}
         self.budget_factor = budget_factor
+        self.watch_code = watch_code   # engine.on_watch() sees return/exception of this code
         self.n = len(plan["clients"])
         self.opcode = plan.get("granularity", "line") == "opcode"
         # simulated time
@@ -157,6 +179,12 @@ class Sim:
             co = frame.f_code
             self._sha.update(("%s %s %s %s %s\n" % (
                 self.current, event, co.co_name, frame.f_lineno, frame.f_lasti)).encode())
+        if frame.f_code is self.watch_code and (event == "return" or event == "exception"):
+            try:
+                self.engine.on_watch(self, frame, event, arg)
+            except BaseException as e:
+                self.harness_error = "on_watch: %r" % (e,)
+                raise Abort("harness-error")
         if n >= self.next_at:
             self._at_point(frame, event, arg, n)
         return self._local_trace
